@@ -174,6 +174,7 @@ adev.jax = StubNS(
     custom_jvp=lambda f: f,
 )
 adev.stage = S.STAGE
+adev.Var, adev.Literal = J.Var, J.Literal  # the interpreter's isinstance tests see the API model's classes
 adev.jaxpr_as_fun = J.jaxpr_as_fun
 adev.modular_vmap = vmap_stub.modular_vmap
 FLIP, NRM, UNI = dists.StubDist("flip"), dists.StubDist("normal"), dists.StubDist("uniform")
@@ -354,7 +355,7 @@ class InterpDeterministic(_NoReplay):
     all tangents zero (symbolic, float0) => just bind, zero tangents of the OUTPUT's tangent type; no inputs => bind;
     no JVP rule => NotImplementedError"""
 
-    cases = ["jvp_rule", "all_zero_tangents", "float0_tangent_canonicalised", "no_inputs", "missing_rule", "multiple_results"]
+    cases = ["jvp_rule", "all_zero_tangents", "float0_tangent_canonicalised", "no_inputs", "missing_rule", "multiple_results", "integer_only_inputs"]
 
     def call(self, case):
         reset()
@@ -382,6 +383,9 @@ class InterpDeterministic(_NoReplay):
         outs = [J.Var("o0"), J.Var("o1")] if multi else [J.Var("o0")]
         if case == "no_inputs":
             jp = J.Jaxpr([], [x, y, k], [J.Eqn(self.p, [], outs, {"axis": 2})], [outs[0]])
+        elif case == "integer_only_inputs":
+            # the returned value comes straight from a primitive whose inputs are all integer / boolean
+            jp = J.Jaxpr([], [x, y, k], [J.Eqn(self.p, [k], outs, {"axis": 2})], [outs[0]])
         else:
             jp = J.Jaxpr([], [x, y, k], [J.Eqn(self.p, [x, y, k], outs, {"axis": 2})], [outs[0]])
         return self.real(adev.ADEV.eval_jaxpr_adev, jp, [], duals)
@@ -395,6 +399,18 @@ class InterpDeterministic(_NoReplay):
             return
         out = path.value
         yield "returns_a_Dual", isinstance(out, Dual)
+        if not isinstance(out, Dual):
+            return
+        if case == "integer_only_inputs":
+            yield "differentiated_or_bound_exactly_once", len(self.jvp_calls) + len(self.p.binds) == 1
+            if self.jvp_calls:
+                prim, tans, params = self.jvp_calls[0]
+                yield "rule_gets_the_integer_primal_with_a_symbolic_zero_tangent", len(prim) == 1 and prim[0] is self.vk and isinstance(tans[0], AD.Zero)
+                outs, touts = self.rule_out
+                yield "output_is_Dual(rule_primal, rule_tangent)", out.primal is outs[0] and out.tangent is touts[0]
+            else:
+                yield "output_tangent_is_zero_of_the_outputs_tangent_type(never_the_primal_itself)", AD.is_zero_tangent(out.tangent) and not isinstance(out.tangent, AD.Zero)
+            return
         if case in ("all_zero_tangents", "no_inputs"):
             # NOTE jnp zeros count as ordinary tangents: only symbolic zeros and float0 are skipped
             if case == "no_inputs" or not self.jvp_calls:
@@ -800,8 +816,21 @@ class Kont:
         return Dual(Sym(self.KP(x)), Sym(self.KTd(x, self._key(d.tangent))))
 
     def kpure(self, *vals):
+        """the PURE continuation binds the remaining equations as they are; a later stochastic site is then evaluated by
+        the implementation staged when the site was bound, and without `seed` that implementation carries the key drawn
+        at staging time: every re-bind replays ONE draw (observed natively: six independent jvp_estimate calls give the
+        identical downstream value).  So kpure(x) is the rest of the program at x with its downstream draws FROZEN - a
+        different function KPfrozen, not the fresh evaluation KP that the dual continuation's primal gives"""
+        Assumed.note("pure continuation = remaining equations bound as staged: downstream sites replay the draw baked at staging when unseeded (KPfrozen), only under seed is it a fresh evaluation")
         self.pcalls.append(vals)
-        return [Sym(self.KP(self._key(vals[0])))]
+        if not hasattr(self, "KPfrozen"):
+            n = engine().fresh_name
+            if self.lanes:
+                f = z3.Function(n("KPfrozen"), *([z3.BoolSort()] * self.lanes), z3.RealSort())
+                self.KPfrozen = lambda key: f(*key)
+            else:
+                self.KPfrozen = z3.Function(n("KPfrozen"), self.sort, z3.RealSort())
+        return [Sym(self.KPfrozen(self._key(vals[0])))]
 
 
 class _Prim(_NoReplay):
@@ -836,8 +865,53 @@ class FlipEnumC(_Prim):
         yield "no_sampling(zero_variance)", not FLIPS.calls
 
 
+class _BatchedFlip(_Prim):
+    """batched Bernoulli site (array-valued p): the estimator is the lane-wise helper, called WITHIN the contract it is
+    proved under - (kpure, kdual, p, p') and nothing else (the helper's invariant proof covers every flipped-lane
+    evaluation going through the dual continuation; an extra argument that re-routes them is outside it)"""
+
+    cases = ["batched"]
+    prim = None
+
+    def call(self, case):
+        reset()
+        B = fresh("B", z3.IntSort())
+        engine().assume(B >= 1)
+        self.p, self.dp = Tensor.fresh("p", (B,)), Tensor.fresh("dp", (B,))
+        self.kp, self.kd = (lambda *a: None), (lambda *a: None)
+        self.rec = []
+        tok = self.tok = object()
+        saved = adev._flip_lane_rb_estimate
+        adev._flip_lane_rb_estimate = lambda *a, **k: self.rec.append((a, k)) or tok
+        try:
+            return self.real(getattr(adev, self.prim)().prim_jvp_estimate, (Dual(self.p, self.dp),), (self.kp, self.kd))
+        finally:
+            adev._flip_lane_rb_estimate = saved
+
+    def ensures(self, case, path):
+        yield "does_not_raise", path.outcome == "return"
+        if path.outcome != "return":
+            return
+        yield "delegates_to_the_lane_wise_estimator_once_and_returns_its_result", len(self.rec) == 1 and path.value is self.tok
+        if len(self.rec) == 1:
+            a, k = self.rec[0]
+            yield "called_with_(kpure, kdual, p, p')_and_nothing_else", len(a) == 4 and a[0] is self.kp and a[1] is self.kd and a[2] is self.p and a[3] is self.dp and not k
+
+
+@contract("genjax.adev:FlipEnum.prim_jvp_estimate", ["C11"])
+class FlipEnumBatched(_BatchedFlip):
+    prim = "FlipEnum"
+
+
+@contract("genjax.adev:FlipMVD.prim_jvp_estimate", ["C11"])
+class FlipMVDBatched(_BatchedFlip):
+    prim = "FlipMVD"
+
+
 @contract("genjax.adev:FlipMVD.prim_jvp_estimate", ["C11"])
 class FlipMVDC(_Prim):
+    native = "mvd_phantom"
+
     """b ~ flip(p); estimate (f_b, f'_b + sign(b) (f_{not b} - f_b) p') whose measure-valued term equals f_T - f_F for
     BOTH outcomes; averaging over b gives the exact derivative (lemma)"""
 
@@ -1228,7 +1302,11 @@ class KontArr:
         return Dual(Sym(self.KP(a)), Sym(self.KT(a)))
 
     def kpure(self, *vals):
-        return [Sym(self.KP(self.as_array(vals[0])))]
+        # see Kont.kpure: the pure continuation replays the staged downstream draws when unseeded (a different function)
+        Assumed.note("pure continuation = remaining equations bound as staged: downstream sites replay the draw baked at staging when unseeded (KPfrozen), only under seed is it a fresh evaluation")
+        if not hasattr(self, "KPfrozen"):
+            self.KPfrozen = z3.Function(engine().fresh_name("KPvfrozen"), z3.ArraySort(z3.IntSort(), z3.BoolSort()), z3.RealSort())
+        return [Sym(self.KPfrozen(self.as_array(vals[0])))]
 
 
 def AD_mentions(e, what):
